@@ -233,9 +233,12 @@ Lemma step_arr_len l st :
 Proof. intros H. step_tac H. reflexivity. Qed.
 
 Lemma step_arr_get k l st :
-  at_instr M fn ip (mk OP_ARR_GET []) ->
+  at_instr M fn ip (mk OP_ARR_GET []) -> (0 <= k < Z.of_nat (length l))%Z ->
   step M (mkst fn ret locs (MInt k :: MArr l :: st) cs ip g out) =
-  MNext (mkst fn ret locs (nth (Z.to_nat (k mod 4294967296)) l MVoid :: st) cs (ip + 1) g out).
-Proof. intros H. step_tac H. reflexivity. Qed.
+  MNext (mkst fn ret locs (nth (Z.to_nat k) l MVoid :: st) cs (ip + 1) g out).
+Proof.
+  intros H Hk. step_tac H. cbn -[Z.leb Z.ltb Z.of_nat].
+  destruct (Z.leb_spec 0 k); [|lia]. destruct (Z.ltb_spec k (Z.of_nat (length l))); [|lia]. reflexivity.
+Qed.
 
 End Steps.
